@@ -305,7 +305,90 @@ UpdateReject(key, rz) ==
                  nis |-> K.nis, S |-> K.S]
   /\ UNCHANGED <<phase, shape, prm, names, skeys, rnames, pts, pool, upd, sens, def, est>>
 
-Scenario == [def |-> def, names |-> names, skeys |-> skeys, rnames |-> rnames, steps |-> steps]
+\* ---- the scikit-learn adapter's transform (C16) ---------------------------------
+\* the adapter starts from the default estimate: zero state, unit covariance (C13 defaults)
+DefaultEstimate ==
+  /\ CanStep /\ "DefaultEstimate" \in Acts /\ est = <<>>
+  /\ est' = [x |-> [s \in StateOf |-> Zero], P |-> [r \in StateOf |-> [c \in StateOf |-> IF r = c THEN One ELSE Zero]]]
+  /\ steps' = Append(steps, [act |-> "DefaultEstimate", x |-> est'.x, P |-> est'.P])
+  /\ last' = [act |-> "DefaultEstimate"]
+  /\ UNCHANGED <<phase, shape, prm, names, skeys, rnames, pts, pool, upd, sens, def>>
+
+AdapterDt == <<1, 10>>      \* the adapter's fixed step
+
+\* fold the sensors in key order over one data row; acc = [est, nis (key -> R), out (key -> outcome), bad]
+RECURSIVE FoldSensors(_, _, _)
+FoldSensors(keys, z, acc) ==
+  IF keys = <<>> \/ acc.bad THEN acc
+  ELSE LET key == Head(keys)
+           K == Kalman(def, key, acc.est, z[key])
+           bad == \/ NVecBad(Pred(def, key, acc.est.x)) \/ NMatBad(SensJac(def, key, acc.est.x))
+                  \/ NVecBad(K.innov) \/ NMatBad(K.S) \/ IsBad(K.detS) \/ ~Fits(K.detS)
+                  \/ (Fits(K.detS) /\ ~RLeq(One, K.detS))
+                  \/ NMatBad(K.Sinv) \/ IsBad(K.nis) \/ GateBad(def.k, K.m, K.nis)
+                  \/ NVecBad(K.x) \/ NMatBad(K.P)
+       IN IF bad THEN [acc EXCEPT !.bad = TRUE]
+          ELSE LET rej == Gate(def.k, K.m, K.nis) IN
+               FoldSensors(Tail(keys), z,
+                 [est |-> IF rej THEN acc.est ELSE [x |-> K.x, P |-> K.P],
+                  nis |-> (key :> K.nis) @@ acc.nis,
+                  out |-> (key :> (IF rej THEN "rejected" ELSE "accepted")) @@ acc.out,
+                  bad |-> FALSE])
+
+\* one row of the data matrix: [controls..., readings of each sensor in key order...]
+TransformRow(r, rz) ==
+  /\ CanStep /\ "TransformRow" \in Acts /\ est # <<>> /\ skeys # <<>>
+  /\ r \in 0..(Len(Vals) - 1) /\ rz \in 0..(Len(ZDeltas) - 1)
+  /\ LET u == [c \in CtrlOf |-> Ring(Vals, Slot(c), r)]
+         z == [key \in RangeOf(skeys) |->
+                 LET j == IndexOf(key, skeys) IN
+                 [rd \in RangeOf(rnames[j]) |-> Ring(ZDeltas, FlatIx(j, IndexOf(rd, rnames[j])), rz)]]
+         p == PredictF(def, AdapterDt, est, u)
+         pbad == NVecBad(p.x) \/ NMatBad(p.P)
+         acc == IF pbad THEN [bad |-> TRUE]
+                ELSE FoldSensors(Ord(RangeOf(skeys)), z, [est |-> p, nis |-> <<>>, out |-> <<>>, bad |-> FALSE]) IN
+     /\ ~acc.bad
+     /\ est' = acc.est
+     /\ steps' = Append(steps, [act |-> "TransformRow", u |-> u, z |-> z, nis |-> acc.nis, outcomes |-> acc.out,
+                                x |-> acc.est.x, P |-> acc.est.P, keyorder |-> Ord(RangeOf(skeys)),
+                                ctlorder |-> Ord(CtrlOf),
+                                rorder |-> [key \in RangeOf(skeys) |-> Ord(RangeOf(rnames[IndexOf(key, skeys)]))]])
+     /\ last' = [act |-> "TransformRow", nis |-> acc.nis]
+  /\ UNCHANGED <<phase, shape, prm, names, skeys, rnames, pts, pool, upd, sens, def>>
+
+(***************************************************************************)
+(* The adapter's score, as a formula TREE over the normalised innovations  *)
+(* (bias / variance / size combination documented in python.py):           *)
+(*   10 * mean(sqrt(nis))^2 + (1/sum(nis) + sum(nis))/2 + 0.01 * sum(noise^2)*)
+(***************************************************************************)
+RECURSIVE SumTree(_)
+SumTree(ts) == IF Len(ts) = 1 THEN ts[1] ELSE Bin("add", SumTree(SubSeq(ts, 1, Len(ts) - 1)), ts[Len(ts)])
+NisList == LET RECURSIVE Collect(_)
+               Collect(i) == IF i = 0 THEN <<>>
+                             ELSE Collect(i - 1) \o (IF steps[i].act = "TransformRow"
+                                                      THEN [j \in 1..Len(steps[i].keyorder) |-> steps[i].nis[steps[i].keyorder[j]]]
+                                                      ELSE <<>>)
+           IN Collect(Len(steps))
+NoiseList == LET co == Ord(CtrlOf) IN
+             [i \in 1..Len(co) |-> def.pnoise[co[i]]] \o
+             LET RECURSIVE PerKey(_)
+                 PerKey(ks) == IF ks = <<>> THEN <<>>
+                               ELSE LET ro == Ord(DOMAIN def.snoise[Head(ks)]) IN
+                                    [j \in 1..Len(ro) |-> def.snoise[Head(ks)][ro[j]]] \o PerKey(Tail(ks))
+             IN PerKey(Ord(DOMAIN def.snoise))
+ScoreTree ==
+  LET ns == NisList  qs == NoiseList
+      n == Len(ns)
+      sqrts == [i \in 1..n |-> Fn("sqrt", Const(ns[i]))]
+      mean == Bin("div", SumTree(sqrts), CI(n))
+      total == SumTree([i \in 1..n |-> Const(ns[i])])
+      size == IF qs = <<>> THEN CI(0) ELSE SumTree([i \in 1..Len(qs) |-> Pow(Const(qs[i]), 2)])
+  IN Bin("add", Bin("add", Bin("mul", CI(10), Pow(mean, 2)),
+                           Bin("div", Bin("add", Bin("div", CI(1), total), total), CI(2))),
+                Bin("mul", Const(<<1, 100>>), size))
+
+Scenario == [def |-> def, names |-> names, skeys |-> skeys, rnames |-> rnames, steps |-> steps,
+             score |-> IF NisList = <<>> THEN <<>> ELSE ScoreTree]
 
 Emit ==
   /\ phase = "run" /\ Len(steps) >= MinSteps /\ EmitOn
@@ -330,6 +413,8 @@ Next ==
   \/ \E p \in RangeOf(pts) : Predict(p)
   \/ \E key \in RangeOf(skeys) : \E rz \in (-1)..(Len(ZDeltas) - 1) : UpdateAccept(key, rz)
   \/ \E key \in RangeOf(skeys) : \E rz \in (-1)..(Len(ZDeltas) - 1) : UpdateReject(key, rz)
+  \/ DefaultEstimate
+  \/ \E r \in 0..(Len(Vals) - 1) : \E rz \in 0..(Len(ZDeltas) - 1) : TransformRow(r, rz)
   \/ Emit
 
 Spec == Init /\ [][Next]_vars
@@ -353,7 +438,8 @@ InvReject ==
   (last # <<>> /\ last.act = "Update" /\ last.outcome = "rejected") =>
      est = last.prior /\ def.k # NoGate
 \* C16: every normalised innovation squared is non-negative
-InvNisNonNeg == (last # <<>> /\ last.act = "Update") => RSign(last.nis) >= 0
+InvNisNonNeg == /\ (last # <<>> /\ last.act = "Update") => RSign(last.nis) >= 0
+                /\ (last # <<>> /\ last.act = "TransformRow") => \A k \in DOMAIN last.nis : RSign(last.nis[k]) >= 0
 \* innovation covariance is symmetric positive definite
 InvSPD == (last # <<>> /\ last.act = "Update") =>
              NSymmetric(last.S) /\ PD(ToMat(last.S, Ord(DOMAIN last.S), Ord(DOMAIN last.S)))
